@@ -41,6 +41,23 @@ theorem charstring_roundtrip (s : Bytes) (hs : ∀ c ∈ s, c < 256) :
     simpa [quote] using this
   · exact unescapeBytes_escapify _ hesc s hs
 
+/-- the lossless style `txt_is_utf8` (TXT, SPF, AVC, NINFO, RESINFO, WALLET): a string that is valid UTF-8 is printed through
+`_escapify_unicode` of its decoded form — only `"`, `\\` and C0 controls are escaped, every other code point (DEL, C1,
+NBSP, soft hyphen, zero-width/ideographic spaces, combining marks, astral planes) is emitted raw — and a string that is not
+valid UTF-8 falls back to `_escapify`.  Either way the quoted text is one QUOTED_STRING token and
+`Token.unescape_to_bytes` restores the octets. -/
+theorem txt_utf8_roundtrip (utf8 : Bool) (s : Bytes) (hs : ∀ c ∈ s, c < 256) :
+    let e := txtElement utf8 ConstsC05.unicodeEscaped Consts.rdataEscaped s
+    lexLine (quote e) = some [⟨.quoted, e⟩] ∧ unescapeBytes e = some s := by
+  obtain ⟨hq, hu⟩ := txtElement_rt utf8 s hs
+  refine ⟨?_, hu⟩
+  apply lexLine_of_lexes
+  have := lexes_quoted _ hq
+  simpa [quote] using this
+
+/-- non-vacuity: `a<NBSP>b` (61 c2 a0 62) is valid UTF-8 and is printed raw as the code point U+00A0 -/
+example : txtElement true ConstsC05.unicodeEscaped Consts.rdataEscaped [0x61, 0xC2, 0xA0, 0x62] = [0x61, 0xA0, 0x62] := by decide
+
 /-- the same through `Token.unescape` + `str.encode()`, i.e. `Tokenizer.get_string` (the code-point path; the
 character-string fields of HINFO/ISDN/X25/CAA/NAPTR and the URI target left it with the `fix:` commits 6aa8f9c / 210fbe5,
 it remains in use for tokens that are ASCII by construction — GPOS, mnemonics, salts): `unescape` returns the octets as
@@ -170,6 +187,11 @@ example : WfText "MX" {} {} [.n 10, .nm [[109, 97, 105, 108], [101, 120], []]] n
 example : WfText "HINFO" {} {} [.b [200, 34], .b []] none := by
   refine ⟨_, rfl, ⟨⟨by decide, by intro m hm; cases hm; decide, by intro m hm; cases hm; decide⟩,
     ⟨⟨by decide, by intro m hm; cases hm; decide, by intro m hm; cases hm; decide⟩, trivial⟩⟩, trivial, rfl⟩
+
+/-- TXT under `txt_is_utf8` with a string that is valid UTF-8 (NBSP) and one that is not -/
+example : WfText "TXT" { txtUtf8 := true } {} [] (some (.bl [[0x61, 0xC2, 0xA0], [0xFF]])) := by
+  refine ⟨_, rfl, trivial, ⟨by simp, ?_⟩, rfl⟩
+  intro s hs; simp at hs; rcases hs with rfl | rfl <;> refine ⟨by decide, by decide⟩
 
 example : WfText "TXT" {} {} [] (some (.bl [[97, 200], []])) := by
   refine ⟨_, rfl, trivial, ⟨by simp, ?_⟩, rfl⟩
